@@ -88,6 +88,10 @@ impl Report {
         }
     }
 
+    pub fn num_violation_total(&self) -> u64 {
+        self.violations.values().map(|v| v.0).sum()
+    }
+
     pub fn num_violation_sigs(&self) -> usize {
         self.violations.len()
     }
